@@ -287,16 +287,56 @@ func c15(c *core.Ctx, r *core.Report) {
 		}
 		r.Check(okArgs && okBinder && len(def.Blocks) == 1, "C15.R6", "configure.Default", c.FnPos(def), "the default configuration unconditionally installs the command-line loader and a merging binder")
 		// and NewApp uses it
+		// (decided by interpreting the constructor, whatever helpers it is split into, with every function of another
+		// package standing for an opaque result)
 		newApp := c.Func("app", "NewApp")
-		usesDef := false
+		usesDef, detail := false, "app.NewApp not found"
 		if newApp != nil {
-			for _, ci := range core.Calls(newApp) {
-				if core.IsCallTo(ci.Common(), def) {
-					usesDef = true
+			defTok := absint.NewTok("configure.Default()", "configure")
+			build := func() (absint.Oracle, []absint.Value, []absint.Value) {
+				t := newTbl(c)
+				seen := map[*ssa.Function]bool{}
+				var walk func(fn *ssa.Function)
+				walk = func(fn *ssa.Function) {
+					if seen[fn] || fn.Blocks == nil {
+						return
+					}
+					seen[fn] = true
+					for _, g := range core.WithAnon(fn) {
+						for _, ci := range core.Calls(g) {
+							cal := ci.Common().StaticCallee()
+							if cal == nil || !c.InScope(cal) {
+								continue
+							}
+							if core.PkgOf(cal) != nil && core.PartOf(core.PkgOf(cal), core.PkgOf(newApp)) {
+								walk(cal)
+								continue
+							}
+							t.callee[cal] = func(ip *absint.Interp, a []absint.Value) absint.Value {
+								if cal == def {
+									return defTok
+								}
+								return absint.NewTok(core.FnName(cal)+"()", "opaque")
+							}
+						}
+					}
 				}
+				walk(newApp)
+				t.ext["flag.Parse"] = func(ip *absint.Interp, a []absint.Value) absint.Value { return absint.Nil{} }
+				return t, nil, nil
 			}
+			n, u := runTable(c, newApp, build, func(ip *absint.Interp, out absint.Outcome) {
+				detail = showOutcome(out)
+				if app, ok := first(out.Ret).(*absint.Tok); ok && out.Panic == nil {
+					usesDef = ip.LoadField(app, "Configure", types.Typ[types.Invalid]) == absint.Value(defTok)
+				}
+			})
+			if u != "" {
+				detail = "undecided: " + u
+			}
+			_ = n
 		}
-		r.Check(usesDef, "C15.R6", "app.NewApp", c.FnPos(newApp), "NewApp starts from configure.Default()")
+		r.Check(usesDef, "C15.R6", "app.NewApp", c.FnPos(newApp), "NewApp starts from configure.Default(): the application it returns holds the default configuration ("+detail+")")
 	}
 	c15ArgsLoader(c, r)
 }
